@@ -2,6 +2,7 @@ package checks
 
 import (
 	"bufio"
+	"encoding/hex"
 	"encoding/json"
 	"fmt"
 	"math/rand"
@@ -28,7 +29,23 @@ func init() {
 type valReq struct {
 	Kind  string `json:"kind"` // "load" | "validate"
 	SDL   string `json:"sdl"`
-	Query string `json:"query,omitempty"`
+	Query string `json:"-"`
+}
+
+// the texts travel as hexadecimal: JSON would replace bytes that are not UTF-8
+func (r valReq) MarshalJSON() ([]byte, error) {
+	return json.Marshal(map[string]string{"kind": r.Kind, "sdl": hex.EncodeToString([]byte(r.SDL)), "query": hex.EncodeToString([]byte(r.Query))})
+}
+
+func (r *valReq) UnmarshalJSON(b []byte) error {
+	var m map[string]string
+	if err := json.Unmarshal(b, &m); err != nil {
+		return err
+	}
+	sdl, _ := hex.DecodeString(m["sdl"])
+	q, _ := hex.DecodeString(m["query"])
+	r.Kind, r.SDL, r.Query = m["kind"], string(sdl), string(q)
+	return nil
 }
 
 type valRes struct {
